@@ -117,10 +117,16 @@ func Explain(c Case) (out Case) {
 			pb = parse()
 		}
 		before := dumpExplain(pb)
+		r["wb"] = []M{}
 		switch str(e, "op") {
 		case "mus":
 			var mus *explain.Problem
 			var err error
+			if boolean(c, "wb") && str(e, "method") != "MUSMaxSat" { // white-box events of the solvers the method creates
+				ctx.mu.Lock()
+				ctx.on, ctx.newEvents, ctx.events, ctx.limit = true, true, nil, 6000
+				ctx.mu.Unlock()
+			}
 			switch str(e, "method") {
 			case "MUS":
 				mus, err = pb.MUS()
@@ -132,6 +138,13 @@ func Explain(c Case) (out Case) {
 				mus, err = pb.MUSMaxSat()
 			default:
 				panic("harness: unknown MUS method")
+			}
+			ctx.mu.Lock()
+			wasOn := ctx.on
+			ctx.on, ctx.newEvents = false, false
+			ctx.mu.Unlock()
+			if wasOn {
+				r["wb"] = takeEvents()
 			}
 			r["err"] = err != nil
 			r["errText"] = ""
